@@ -262,6 +262,7 @@ struct RunResult {
     /// (impl canonical output, model output) per step ("init", "cycle k")
     steps: Vec<(String, String, String)>,
     mismatch: Option<String>,
+    mismatch_step: Option<(String, String)>,
     oracle_failures: Vec<String>,
     cycles: usize,
     total_merges: usize,
@@ -347,6 +348,7 @@ fn run_case(rt: &tokio::runtime::Runtime, case: &Case, model: &mut Model) -> Run
     let mut res = RunResult {
         steps: vec![],
         mismatch: None,
+        mismatch_step: None,
         oracle_failures: vec![],
         cycles: 0,
         total_merges: 0,
@@ -383,9 +385,12 @@ fn run_case(rt: &tokio::runtime::Runtime, case: &Case, model: &mut Model) -> Run
     let init_impl = format!("ok cat={} fresh={}", show_cat(&snap0, &it), it.next);
     let init_model = model.ask(&format!("init {} {}", case.backend.name(), ops_text(&ops)));
     res.steps.push(("init".into(), init_impl.clone(), init_model.clone()));
-    if !model.is_null() && init_model != init_impl {
+    // after the first mismatch the model is left alone; the implementation run
+    // goes on so that the oracle judges the whole run
+    let mut model_on = !model.is_null();
+    if model_on && init_model != init_impl {
         res.mismatch = Some("init".into());
-        return res;
+        model_on = false;
     }
     // the levels the population asked for are really there
     for c in &case.chunks {
@@ -462,13 +467,17 @@ fn run_case(rt: &tokio::runtime::Runtime, case: &Case, model: &mut Model) -> Run
         let mut cur_level: u64 = 0;
         let mut cur_levels: BTreeMap<String, Option<u32>> = BTreeMap::new();
         let mut first = true;
+        // things the model fixes but the property does not speak about: they go into
+        // the compared text, not into the oracle
+        let mut extra = String::new();
+        let mut targets_txt: Vec<String> = Vec::new();
         for l in &log {
             match l {
                 Rec::L0 { min_count, groups, levels } => {
                     if first {
                         first = false;
                         if *min_count != 1 {
-                            res.oracle_failures.push(format!("cycle {}: first candidate call is not the pending count", cyc));
+                            extra.push_str(" FIRST-CANDIDATE-CALL-IS-NOT-THE-PENDING-COUNT");
                         }
                         pending = groups.iter().map(|g| g.len()).sum::<usize>().to_string();
                         continue;
@@ -480,15 +489,12 @@ fn run_case(rt: &tokio::runtime::Runtime, case: &Case, model: &mut Model) -> Run
                     obs.calls.push((false, base, vec![]));
                     check_groups(&mut res.oracle_failures, cyc, 0, groups, levels);
                     if *min_count as u64 != cfg.thr {
-                        res.oracle_failures.push(format!("cycle {}: L0 candidates asked with {} instead of the threshold {}", cyc, min_count, cfg.thr));
+                        extra.push_str(&format!(" L0-CANDIDATES-ASKED-WITH-{}", min_count));
                     }
                 }
                 Rec::Level { level, target, groups, levels } => {
                     first = false;
-                    let want = match *level { 1 => Some(cfg.l1), 2 => Some(cfg.l2), _ => cfg.l2.checked_mul(5) };
-                    if want != Some(*target as u64) {
-                        res.oracle_failures.push(format!("cycle {}: level {} candidates asked with target {} instead of {:?}", cyc, level, target, want));
-                    }
+                    targets_txt.push(format!("{}:{}", level, target));
                     cur_level = *level as u64;
                     cur_levels = levels.clone();
                     obs.sel_segments.push(format!("{}:{}", level, show_groups(groups, &it)));
@@ -565,7 +571,15 @@ fn run_case(rt: &tokio::runtime::Runtime, case: &Case, model: &mut Model) -> Run
         if let Ok(Ok(())) = &r {
             let bp = comp.backpressure().l0_pending_files.to_string();
             if bp != pending {
-                res.oracle_failures.push(format!("cycle {}: l0_pending_files {} != counted {}", cyc, bp, pending));
+                extra.push_str(&format!(" L0-PENDING-FILES-{}", bp));
+            }
+        }
+        // target sizes the compactor asked with (level >= 3: l2 * 5)
+        for t in &targets_txt {
+            let f: Vec<&str> = t.split(':').collect();
+            let want = match f[0] { "1" => Some(cfg.l1), "2" => Some(cfg.l2), _ => cfg.l2.checked_mul(5) };
+            if want.map(|w| w.to_string()) != Some(f[1].to_string()) {
+                extra.push_str(&format!(" LEVEL-{}-ASKED-WITH-TARGET-{}", f[0], f[1]));
             }
         }
         for (p, (l, _)) in &after {
@@ -593,12 +607,13 @@ fn run_case(rt: &tokio::runtime::Runtime, case: &Case, model: &mut Model) -> Run
             let fresh = Inner::S3(Arc::new(ObjectStoreMetadataClient::new(store.clone(), s3cfg.clone())));
             let persisted = rt.block_on(fresh.snapshot());
             if show_cat(&persisted, &it) != acat {
-                res.oracle_failures.push(format!("cycle {}: persisted catalog differs from the compactor's cached view", cyc));
+                extra.push_str(" PERSISTED-CATALOG-DIFFERS-FROM-CACHED-VIEW");
             }
         }
 
+        obs.impl_out.push_str(&extra);
         // ---- model
-        if !model.is_null() {
+        if model_on {
             let cfgtxt = format!("{} {} {} {}", cfg.thr, cfg.l1, cfg.l2, cfg.maxlv);
             let mut ords: Vec<Vec<u32>> = obs
                 .calls
@@ -650,7 +665,8 @@ fn run_case(rt: &tokio::runtime::Runtime, case: &Case, model: &mut Model) -> Run
             res.steps.push((format!("cycle {}", cyc), obs.impl_out.clone(), committed.clone()));
             if committed != obs.impl_out {
                 res.mismatch = Some(format!("cycle {}", cyc));
-                return res;
+                res.mismatch_step = Some((obs.impl_out.clone(), committed));
+                model_on = false;
             }
         } else {
             res.steps.push((format!("cycle {}", cyc), obs.impl_out.clone(), "NO-MODEL".into()));
@@ -797,6 +813,10 @@ fn corpus(base: i64) -> Vec<Case> {
         out.push(Case { backend: b, cfgs: vec![cfg(2, 1 << 40, 1 << 40, 2)], chunks: vec![c(0, 1, 0, 10), c(1, 1, 10, 10), c(2, 1, 20, 10)] });
         // equal min_timestamps inside one level: the grouping depends on the hash order
         out.push(Case { backend: b, cfgs: vec![cfg(2, 1000, 1000, 2)], chunks: vec![c(0, 1, 0, 1000), c(1, 1, 0, 1), c(2, 1, 0, 1), c(3, 1, 0, 1000)] });
+        // two chunks with one min_timestamp: [small, big] closes a pair, [big, small] leaves the
+        // in-memory selection empty-handed (hash order decides; the unobservable order is searched)
+        out.push(Case { backend: b, cfgs: vec![cfg(2, 50, 50, 2)], chunks: vec![c(0, 1, 7, 1), c(1, 1, 7, 100)] });
+        out.push(Case { backend: b, cfgs: vec![cfg(2, 50, 50, 2)], chunks: vec![c(0, 1, 7, 1), c(1, 1, 7, 100), c(2, 1, 7, 1), c(3, 1, 7, 100), c(4, 1, 7, 30)] });
         // levels above the limit are never touched; level max_levels is still compacted
         out.push(Case { backend: b, cfgs: vec![cfg(2, 0, 0, 1)], chunks: vec![c(0, 1, 0, 1), c(1, 1, 10, 1), c(2, 2, 20, 1), c(3, 2, 30, 1), c(4, 3, 40, 1), c(5, 3, 50, 1)] });
         // level >= 3 target = l2 * 5 overflows usize: the cycle panics (debug build) once it gets there
@@ -843,7 +863,7 @@ fn main() {
         std::process::exit(if r.mismatch.is_none() && r.oracle_failures.is_empty() { 0 } else { 1 });
     }
 
-    let n_random = if args.thorough() { 5_000 } else { 260 };
+    let n_random = if args.thorough() { 5_000 } else { 400 };
     let mut rng = Rng::new(args.seed);
     let mut cases: Vec<(String, Case)> = corpus(base).into_iter().map(|c| ("corpus".to_string(), c)).collect();
     for _ in 0..n_random {
@@ -882,10 +902,11 @@ fn main() {
             });
             let c2 = Case { backend: case.backend, cfgs: case.cfgs.clone(), chunks: shrunk_chunks };
             let r2 = run_case(&rt, &c2, &mut model);
-            let (s_impl, s_model) = r2.steps.last().map(|(_, i, m)| (i.clone(), m.clone())).unwrap_or_default();
+            let (s_impl, s_model) = r2.mismatch_step.clone().unwrap_or_else(|| r2.steps.first().map(|(_, i, m)| (i.clone(), m.clone())).unwrap_or_default());
+            let (o_impl, o_model) = r.mismatch_step.clone().unwrap_or_else(|| r.steps.first().map(|(_, i, m)| (i.clone(), m.clone())).unwrap_or_default());
             report.disagreement(json!({
                 "correspondence": "compaction cycle model (Model/Compaction.v) vs Compactor::run_compaction_cycle + metadata client",
-                "case": key, "step": step, "impl": last.1, "model": last.2,
+                "case": key, "step": step, "impl": o_impl, "model": o_model,
                 "shrunk": encode_with(&c2, base), "shrunk_impl": s_impl, "shrunk_model": s_model,
                 "oracle_failed": !bad.is_empty() || !r2.oracle_failures.is_empty(),
             }));
@@ -898,12 +919,23 @@ fn main() {
                 !rr.oracle_failures.is_empty() || (rr.panics > 0 && !overflow_possible(&c2))
             });
             let c2 = Case { backend: case.backend, cfgs: case.cfgs.clone(), chunks: shrunk_chunks };
-            report.oracle_violation("", &bad.join("; "), json!({"case": encode_with(&c2, base), "original": key}));
+            report.oracle_violation("", &summarize(&bad), json!({"case": encode_with(&c2, base), "original": key}));
         }
     }
     report.notes.push(format!("model calls: {}", model.calls));
     report.notes.push("timestamps in case texts are relative to an hour-aligned base 100 hours before the run".into());
     report.write(&args.out);
+}
+
+/// the run-level failures first, then the first few per-cycle ones
+fn summarize(bad: &[String]) -> String {
+    let mut v: Vec<&String> = bad.iter().filter(|b| !b.starts_with("cycle ")).collect();
+    v.extend(bad.iter().filter(|b| b.starts_with("cycle ")).take(3));
+    let mut s = v.iter().map(|x| x.as_str()).collect::<Vec<_>>().join("; ");
+    if bad.len() > v.len() {
+        s.push_str(&format!("; ... ({} failures in all)", bad.len()));
+    }
+    s
 }
 
 /// usize arithmetic of the selection / target-size code can overflow for this case
